@@ -243,6 +243,8 @@ def raw_holes(v, safe_binders=frozenset()) -> list[str]:
             tail = (x[1] if t == "call" else x[2]).split(".")[-1]
             if tail in SAFE_CALLS or tail.startswith("_print_"):
                 return True
+            if t == "call" and tail in ("zip", "reversed", "list", "tuple", "enumerate", "sorted") and x[2]:
+                return all(safe(a_, sb) for a_ in x[2])
             return False
         if t == "sym":
             return x[1] in ("func", "relop") or x[1].endswith((".i", ".j"))
